@@ -147,7 +147,7 @@ class Model:
 
 @st.composite
 def wbs_spec(draw, max_tasks=8, min_tasks=0, hier_cycles=False, min_start=True, milestones=True,
-             summary_links=True, est_pool=None, names=None, palette_max=3, min_start_pool=None, min_start_rate=5):
+             summary_links=True, est_pool=None, names=None, palette_max=3, min_start_pool=None, min_start_rate=5, lookalike_ids=False):
     n = draw(st.integers(min_tasks, max_tasks))
     ids = draw(st.permutations(list(range(1, n + 1))))
     tasks = []
@@ -221,6 +221,26 @@ def wbs_spec(draw, max_tasks=8, min_tasks=0, hier_cycles=False, min_start=True, 
     if names is not None:
         for t in tasks:
             t['name'] = draw(names)
+    if lookalike_ids and n >= 2 and draw(st.integers(0, 5)) == 0:
+        # ids are told apart by ==: 7 and '7' (or 2 and 2.5, None ...) are different tasks of one WBS
+        k = draw(st.integers(1, max(1, n // 2)))
+        victims = draw(st.permutations(list(ids)))[:k]
+        others = [i for i in ids if i not in victims]
+        mp = {}
+        for v, o in zip(victims, draw(st.permutations(others))[:k] if others else []):
+            mp[v] = str(o)
+        relabel(spec, mp)
+    return spec
+
+
+def relabel(spec, mp):
+    f = lambda i: mp.get(i, i)
+    for t in spec['tasks']:
+        t['id'] = f(t['id'])
+        t['parent'] = None if t['parent'] is None else f(t['parent'])
+    spec['links'] = [[f(u), f(v)] for u, v in spec['links']]
+    for e in spec.get('ext', []):
+        e['succ'] = [f(x) for x in e['succ']]
     return spec
 
 
@@ -234,7 +254,7 @@ def build(spec, wbs_kwargs=None):
                   milestone=t.get('milestone', False), start=dt(t.get('start')), end=dt(t.get('end')),
                   min_start=dt(t.get('min_start')))
         kw.update(t.get('custom') or {})
-        o = Task(t['id'], t.get('name'), **kw)
+        o = Task(t['id'], t.get('name') if 'name' in t else 'T%s' % t['id'], **kw)
         objs[t['id']] = o
         if t['parent'] is None:
             w.roots.append(o)
